@@ -191,12 +191,19 @@ def run(cfg):
             return st
 
         def assign(self_, s, st, tr):
+            name_, v = None, None
             if s.k == 'decl' and s.a[2] is not None:
-                v = s.a[2]
+                name_, v = s.a[0], s.a[2]
+            elif s.k == 'assign' and s.a[0].k == 'var' and s.a[2] == '=':
+                name_, v = s.a[0].a[0], s.a[1]
+            if name_ is not None:
                 while v.k == 'cast':
                     v = v.a[2]
                 if v.k == 'call' and v.a[0].endswith('::readResponse'):
-                    return (st[0], s.a[0], 'unknown', st[3], st[4])
+                    return (st[0], name_, 'unknown', st[3], st[4])
+                if v.k == 'var' and lib.global_value(v.a[0]) == lib.const('ace_time::clock::Clock::kInvalidSeconds') and st[1] in (None, name_):
+                    # the variable that will hold the response starts out as "no response"
+                    return (st[0], name_, 'invalid', st[3], st[4])
             if s.k == 'assign':
                 p = path_of(s.a[0])
                 if p in CLOCK_FIELDS:
@@ -224,6 +231,8 @@ def run(cfg):
                 for x, y in ((l, r), (r, l)):
                     if path_of(x) == st[1] and y.k == 'var' and lib.global_value(y.a[0]) == lib.const('ace_time::clock::Clock::kInvalidSeconds'):
                         invalid = (c_.a[0] == '==') == truth
+                        if st[2] == 'invalid' and not invalid:
+                            return None        # the variable still holds the sentinel on this path: it does not test as valid
                         return (st[0], st[1], 'invalid' if invalid else 'valid', st[3], st[4])
             return st
 
